@@ -113,9 +113,9 @@ def check_c01(pid, tier, replay):
             model_haz[k] = model_haz.get(k, 0) + 1
 
     # ---- histories
-    nshape = 2400 if q else 0          # 0 = all
+    nshape = 2400 if q else 40000
     hs_shape, nuniq = gen_loader.shape_histories(shapes, rng, nshape, 0)
-    hs_mut = gen_loader.mutation_histories(list(uniq.values()), rng, 800 if q else 40000, 100000)
+    hs_mut = gen_loader.mutation_histories(list(uniq.values()), rng, 800 if q else 20000, 100000)
     scaled = gen_loader.scaled_loads()
     hs_scaled = [gen_loader.with_followups(rng, ld, 200000 + i, k=(1, 3, 2)[i % 3]) for i, ld in enumerate(scaled)]
     hs_hand = []
@@ -155,4 +155,4 @@ def check_c01(pid, tier, replay):
                         "wall_s": round(r.wall, 1)} for r in emit + inv],
         "exhaustive": False,
     }
-    return checks.conclude(pid, tier, "exploration", histories, failures, rerun, coverage, t0, ASSUME, max_report=6 if q else 12)
+    return checks.conclude(pid, tier, "exploration", histories, failures, rerun, coverage, t0, ASSUME, max_report=12)
